@@ -257,19 +257,31 @@ def shared_paths(ws, op, mat):
     return (rp, mf, inp, mat[3], mat[4])
 
 
-def run_history(ctx, ops, mats, fresh, seq, label, ws=None):
+def run_history(ctx, ops, mats, fresh, seq, label, ws=None, last_interleaved_with=None):
     prev = None
     for pos, i in enumerate(seq):
         if fresh[i] is None:
             prev = i
             continue
-        if ws is not None and ctx.rng.random() < 0.4:
+        interleaved = (pos + 1 < len(seq) and ctx.rng.random() < 0.15) or (last_interleaved_with is not None and pos == len(seq) - 1)
+        nxt = seq[pos + 1] if pos + 1 < len(seq) else last_interleaved_with
+        if interleaved:
+            # a rule set prepared up front: this operation's matcher is built, the NEXT operation of the history is compiled (its
+            # matcher built, not run), then this matcher is run - the other compilation happened before this operation's match
+            ctx.event("ops_run_after_the_next_rule_was_compiled")
+            rp, mf, inp, binary, (ret, search, oa) = mats[i]
+            b = real.build(rp, inp, binary=binary, ret=ret, search=search, only_addr=oa, macros=mf)
+            rp2, mf2, inp2, binary2, (ret2, search2, oa2) = mats[nxt]
+            real.build(rp2, inp2, binary=binary2, ret=ret2, search=search2, only_addr=oa2, macros=mf2)
+            rr = real.run(b)
+            r = ["ok", rr[1]] if rr[0] == "ok" else ["exc", rr[1]]
+        elif ws is not None and ctx.rng.random() < 0.4:
             ctx.event("ops_through_shared_paths")
             r = run_op(shared_paths(ws, ops[i], mats[i]))
         else:
             r = run_op(mats[i], twice=ctx.rng.random() < 0.25)
         ctx.ran()
-        leak = cfg_mismatch(expected_cfg(ops[i]["rule"]), actual_cfg()) if r[0] == "ok" else None
+        leak = cfg_mismatch(expected_cfg(ops[i]["rule"]), actual_cfg()) if r[0] == "ok" and not interleaved else None
         if leak:
             ctx.event("singleton_differs_from_current_config")
         ctx.event("history_results_compared")
@@ -279,9 +291,10 @@ def run_history(ctx, ops, mats, fresh, seq, label, ws=None):
             hist = [ops[j]["name"] for j in seq[max(0, pos - 3):pos + 1]]
             ctx.disagreement({"history": [ops[j]["name"] for j in seq[:pos + 1]], "op": ops[i], "fresh": fresh[i], "in_history": r,
                               "random_ops": [o for o in ops if o["name"].startswith("rand-")],
-                              "first_leaked_key": leak},
+                              "first_leaked_key": leak, "interleaved_with": ops[nxt]["name"] if interleaved else None},
                              f"operation {ops[i]['name']} returned {str(r)[:160]} at position {pos} of a history (...{hist}) but {str(fresh[i])[:160]} "
-                             f"when executed first in a fresh process; singleton key differing from current config: {leak}")
+                             f"when executed first in a fresh process; singleton key differing from current config: {leak}"
+                             + (f"; its matcher was built, then {ops[nxt]['name']} was compiled, then it was run" if interleaved else ""))
             return False
         prev = i
     return True
@@ -332,7 +345,8 @@ def replay(ctx, case):
     mats = materialise(ws, ops)
     fresh = fresh_table(ctx, ws, ops, mats)
     seq = [names.index(nm) for nm in case["history"] if nm in names]
-    run_history(ctx, ops, mats, fresh, seq, "replay")
+    li = case.get("interleaved_with")
+    run_history(ctx, ops, mats, fresh, seq, "replay", last_interleaved_with=names.index(li) if li in names else None)
 
 
 if __name__ == "__main__":
